@@ -4,8 +4,10 @@ package simrt
 
 import (
 	"reflect"
+	"runtime"
 	"sort"
 	"strconv"
+	"sync"
 
 	"verifsim/sim/kern"
 )
@@ -224,4 +226,142 @@ func Yield(what string) {
 	if kern.Active() {
 		kern.Call(kern.Req{Op: kern.OpYield, S: what})
 	}
+}
+
+// ---- channels ---------------------------------------------------------------------------
+//
+// Channels are not modelled by the kernel. simgen rewrites the blocking channel operations of the
+// code under test into these helpers, which keep the real channel and turn "block" into "park in
+// the kernel until some other task has done something, then look again". A task that waits for a
+// channel nobody will ever serve ends up in the kernel's ordinary deadlock report.
+//
+// An unbuffered channel needs a rendezvous, which two polling sides never reach on the real
+// channel; a sender that finds nobody therefore leaves its value in a side table, where the next
+// receiver of that channel takes it (FIFO). The table is guarded by a real mutex, which gives the
+// race detector the same happens-before edge the real hand-off would.
+
+type pendingSend struct {
+	v    any
+	done bool
+}
+
+var (
+	chanMu      sync.Mutex
+	chanPending = map[uintptr][]*pendingSend{}
+)
+
+func chanPark(site string) {
+	kern.Call(kern.Req{Op: kern.OpPoll, S: site})
+}
+
+func chanDone(site string) {
+	kern.Call(kern.Req{Op: kern.OpYield, S: site})
+}
+
+// ResetChannels forgets pending hand-offs (between runs).
+func ResetChannels() {
+	chanMu.Lock()
+	chanPending = map[uintptr][]*pendingSend{}
+	chanMu.Unlock()
+}
+
+// Recv is `<-ch`.
+func Recv[T any](ch <-chan T, site string) T {
+	v, _ := Recv2(ch, site)
+	return v
+}
+
+// Recv2 is `v, ok := <-ch`.
+func Recv2[T any](ch <-chan T, site string) (T, bool) {
+	if !kern.Active() || kern.Aborting() {
+		v, ok := <-ch
+		return v, ok
+	}
+	id := reflect.ValueOf(ch).Pointer()
+	for {
+		select {
+		case v, ok := <-ch:
+			chanDone(site)
+			return v, ok
+		default:
+		}
+		if ch != nil && cap(ch) == 0 {
+			chanMu.Lock()
+			q := chanPending[id]
+			var got *pendingSend
+			if len(q) > 0 {
+				got = q[0]
+				chanPending[id] = q[1:]
+				got.done = true
+			}
+			chanMu.Unlock()
+			if got != nil {
+				chanDone(site)
+				return got.v.(T), true
+			}
+		}
+		if kern.Aborting() {
+			var zero T
+			return zero, false
+		}
+		chanPark(site)
+	}
+}
+
+// Send is `ch <- v`.
+func Send[T any](ch chan<- T, v T, site string) {
+	if !kern.Active() || kern.Aborting() {
+		ch <- v
+		return
+	}
+	id := reflect.ValueOf(ch).Pointer()
+	var mine *pendingSend
+	for {
+		if mine == nil {
+			select {
+			case ch <- v:
+				chanDone(site)
+				return
+			default:
+			}
+			if ch != nil && cap(ch) == 0 {
+				// nobody is blocked in a receive on the real channel: offer the value
+				mine = &pendingSend{v: v}
+				chanMu.Lock()
+				chanPending[id] = append(chanPending[id], mine)
+				chanMu.Unlock()
+				chanDone(site) // an offer is progress: parked receivers look again
+				continue       // (one of them may have taken it meanwhile)
+			}
+		} else {
+			chanMu.Lock()
+			done := mine.done
+			chanMu.Unlock()
+			if done {
+				chanDone(site)
+				return
+			}
+		}
+		if kern.Aborting() {
+			return
+		}
+		chanPark(site)
+	}
+}
+
+// Close is `close(ch)`: closing may make parked receivers ready, so it counts as progress.
+func Close[T any](ch chan<- T, site string) {
+	close(ch)
+	if kern.Active() && !kern.Aborting() {
+		chanDone(site)
+	}
+}
+
+// SelectPark is the body of the default clause simgen adds to a select statement without one.
+func SelectPark(site string) {
+	if !kern.Active() || kern.Aborting() {
+		runtime.Gosched()
+		return
+	}
+	chanPark(site)
 }
